@@ -497,7 +497,7 @@ def check(run, replay_path=None):
         return
 
     # ---- spec -> code: the model is checked (laws, coverage of every action) and enumerates the cases
-    n_cfg = run.pick(96, 384)
+    n_cfg = run.pick(96 + 4, 384 + 16)
     kinds = cases_of(run, run.pick('Tls.cfg', 'Tls_thorough.cfg'), n_cfg)
     # second traces: a session that is restarted after the environment has turned hostile
     restarts = [dict(p, restart=True) for p in kinds['cfg'] if p['c']['peer'] == 'yes' and p['mode'] in ('tls', 'plain')]
@@ -573,7 +573,8 @@ def check(run, replay_path=None):
     run.note('exhaustive', True)
     run.assumptions += [
         'a shared http server supplied by the application matches the TLS configuration of the party it is given to '
-        '(https iff the party has an ssl context container); the scheme of a shared server is not the party\'s choice',
+        '(https iff the party has an ssl context container), except psrv = mismatch: a plaintext shared server handed '
+        'to a TLS provider (what the provider advertises is judged, the session cannot come about)',
         'peer answers TLS = no is realised as the downgrade environment (every TLS handshake fails with ssl.SSLError, '
         'every server answers plaintext requests), also for own servers that were wrapped with a server context',
         'own http server: the real HttpServerThreadBase runs; its socket server class _ThreadingHTTPServer is replaced '
